@@ -9,7 +9,7 @@ from __future__ import annotations
 import asyncio
 import itertools
 
-from common import Coverage, Driver, hx, rng, shrink_bytes, unhx, violation
+from common import Coverage, Driver, coq_eval, hx, rng, shrink_bytes, unhx, violation
 from ref.tlv8 import ref_decode, ref_encode, wf
 
 LENS = [0, 1, 2, 254, 255, 256, 257, 509, 510, 511, 765, 766]
@@ -250,6 +250,56 @@ def oracle_dec(bs, exp, impl):
     return None
 
 
+# ---------------------------------------------------------------- kernel cross-check of the extracted driver
+def coq_bytes(b):
+    return "[" + "; ".join(f"{x}%N" for x in bytes(b)) + "]"
+
+
+def coq_items(items):
+    return "[" + "; ".join(f"({k}%N, {coq_bytes(v)})" for k, v in items) + "]"
+
+
+def vm_crosscheck(ctx, enc_pairs, dec_pairs):
+    """Evaluate a sample of enc/dec requests with vm_compute inside Coq and compare with what the extracted
+    OCaml driver answered (takes extraction + ocaml/drv*.ml out of the single-point-of-trust position)."""
+    body = ["From Coq Require Import List NArith.", "From AHK Require Import Lib.Res Lib.ByteStr Model.Tlv.",
+            "Import ListNotations.",
+            "Definition show_b (r : res tlv_err bytes) := match r with Ok b => (0%N, b) | Err ParseError => (1%N, []) "
+            "| Err ValueError => (2%N, []) | Crash => (3%N, []) | OutOfFuel => (4%N, []) end.",
+            "Definition show_i (r : res tlv_err (list item)) := match r with Ok l => (0%N, l) | Err ParseError => (1%N, []) "
+            "| Err ValueError => (2%N, []) | Crash => (3%N, []) | OutOfFuel => (4%N, []) end."]
+    for items, _ in enc_pairs:
+        body.append(f"Eval vm_compute in (show_b (tlv_encode {coq_items(items)})).")
+    for (bs, exp), _ in dec_pairs:
+        body.append(f"Eval vm_compute in (show_i (tlv_decode_exp {coq_bytes(bytes(exp) if exp else b'')} {coq_bytes(bs)})).")
+    out = coq_eval(ctx["verif"], "C15", "crosscheck", "\n".join(body) + "\n", timeout=300)
+    import re
+    blocks = out.split("= ")[1:]
+    bad = 0
+    answers = [a for _, a in enc_pairs] + [a for _, a in dec_pairs]
+    for blk, ans in zip(blocks, answers):
+        nums = [int(x) for x in re.findall(r"(\d+)%N", blk.split(":")[0])]
+        code = nums[0] if nums else -1
+        want = {"ok": 0, "err parse": 1, "err value": 2, "crash": 3, "fuel": 4}["ok" if ans.startswith("ok") else ans]
+        if code != want:
+            bad += 1
+            continue
+        if ans.startswith("ok "):
+            # compare the flattened byte content (structure is implied by the grammar of the answer)
+            flat = []
+            for tok in ans[3:].split(" "):
+                if tok == ".":
+                    continue
+                if ":" in tok:
+                    k, v = tok.split(":")
+                    flat += [int(k)] + list(unhx(v))
+                else:
+                    flat += list(unhx(tok))
+            if nums[1:] != flat:
+                bad += 1
+    return len(blocks), bad
+
+
 # ---------------------------------------------------------------- run
 def run(ctx):
     tier, seed = ctx["tier"], ctx["seed"]
@@ -270,7 +320,7 @@ def run(ctx):
     # ---- enc
     enc_cases = gen_enc(tier, rng(seed, "c15enc"))
     lines = ["enc " + " ".join(f"{k}:{hx(v)}" for k, v in items) for items in enc_cases]
-    model = drv.batch(lines)
+    model = enc_model = drv.batch(lines)
     spec = drv.batch(["spec " + " ".join(f"{k}:{hx(v)}" for k, v in items) if all(0 <= k for k, _ in items) else "spec"
                       for items in enc_cases])
     for items, m, sp in zip(enc_cases, model, spec):
@@ -286,7 +336,7 @@ def run(ctx):
     # ---- dec
     dec_cases = gen_dec(tier, rng(seed, "c15dec"))
     lines = [f"dec {hx(bytes(exp)) if exp else '-'} {hx(bs)}" for bs, exp in dec_cases]
-    model = drv.batch(lines)
+    model = dec_model = drv.batch(lines)
     for idx, ((bs, exp), m) in enumerate(zip(dec_cases, model)):
         impl = impl_decode(bs, exp, use_bytes=(idx % 2 == 1))
         orc = oracle_dec(bs, exp, impl)
@@ -318,6 +368,15 @@ def run(ctx):
             small = shrink_bytes(bs, lambda c: oracle_dec(c, exp, impl_decode(c, exp)) is not None)
             v["payload"]["shrunk_bytes"] = hx(small)
             break
+    step_e, step_d = max(1, len(enc_cases) // 8), max(1, len(dec_cases) // 12)
+    enc_sample = [(enc_cases[i], enc_model[i]) for i in range(0, len(enc_cases), step_e)
+                  if all(0 <= k for k, _ in enc_cases[i]) and sum(len(v) for _, v in enc_cases[i]) < 1200][:8]
+    dec_sample = [(dec_cases[i], dec_model[i]) for i in range(0, len(dec_cases), step_d) if len(dec_cases[i][0]) < 1200][:12]
+    n, bad = vm_crosscheck(ctx, enc_sample, dec_sample)
+    cov.extra["vm_compute_crosscheck"] = dict(requests=n, disagreements=bad)
+    if bad:
+        viols.append(violation("extraction-vs-vm_compute", f"{bad} of {n} sampled requests: extracted driver and vm_compute disagree",
+                               False, broken="extraction / ocaml driver glue"))
     cov.extra["exhaustive"] = True
     cov.extra["exhaustive_part"] = ("dec: all byte strings of length <= 2 and all strings of length <= %d over {0,1,2,3,254,255}; "
                                     "enc: all single items over 8 types x 12 boundary lengths, all pairs over the pair-length set"
